@@ -73,7 +73,7 @@ package iavl
 //@   props C01 C02 C11
 //@   requires node != nil && t != nil && t.ndb != nil
 //@   requires node.leftNode != nil && node.rightNode != nil && valid(node.leftNode) && valid(node.rightNode)
-//@   requires node.nodeKey == nil
+//@   requires node.nodeKey == nil && node.key != nil
 //@   requires indep(node.leftNode, node) && indep(node.rightNode, node)
 //@   requires hgt(view(node.leftNode)) <= 100 && hgt(view(node.rightNode)) <= 100
 //@   requires siz(view(node.leftNode)) <= 1152921504606846976 && siz(view(node.rightNode)) <= 1152921504606846976
@@ -95,6 +95,7 @@ package iavl
 
 //@ func (*MutableTree).rotateRight(tree, node) (res, err)
 //@   props C01 C02 C11
+//@   reveal rotRk
 //@   requires tree != nil && tree.ImmutableTree != nil && tree.ImmutableTree.ndb != nil
 //@   requires node != nil && shape(node) && node.subtreeHeight > 0
 //@   requires hgt(lview(node)) <= 99 && hgt(rview(node)) <= 99 && siz(lview(node)) <= 576460752303423488 && siz(rview(node)) <= 576460752303423488
@@ -109,6 +110,7 @@ package iavl
 
 //@ func (*MutableTree).rotateLeft(tree, node) (res, err)
 //@   props C01 C02 C11
+//@   reveal rotLk
 //@   requires tree != nil && tree.ImmutableTree != nil && tree.ImmutableTree.ndb != nil
 //@   requires node != nil && shape(node) && node.subtreeHeight > 0
 //@   requires hgt(lview(node)) <= 99 && hgt(rview(node)) <= 99 && siz(lview(node)) <= 576460752303423488 && siz(rview(node)) <= 576460752303423488
@@ -125,6 +127,7 @@ package iavl
 // height/size up to date or not) — result is bal of the documented algorithm.
 //@ func (*MutableTree).balance(tree, node) (res, err)
 //@   props C01 C02 C11
+//@   reveal bal rotR rotL rotRk rotLk
 //@   requires tree != nil && tree.ImmutableTree != nil && tree.ImmutableTree.ndb != nil
 //@   requires node != nil && valid(node) && node.subtreeHeight > 0 && !inptr[node] && node.leftNode != nil && node.rightNode != nil
 //@   requires hgt(lview(node)) <= 98 && hgt(rview(node)) <= 98 && siz(lview(node)) <= 288230376151711744 && siz(rview(node)) <= 288230376151711744
@@ -196,4 +199,51 @@ package iavl
 //@   ensures [inptr] old(inptr[node]) ==> inptr[node]
 //@   ensures [frame] nframe(old(heap(N)), heap(N), old(na))
 //@   modifies Node.leftNode[*], Node.rightNode[*], inptr[node], smhas[tree.unsavedFastNodeAdditions], smval[tree.unsavedFastNodeAdditions], smhas[tree.unsavedFastNodeRemovals], nodeDB.*[*], Statistics.*[*]
+//@   decreases hgt(view(node))
+
+// ---------------------------------------------------------------- mutable_tree.go: removal
+
+//@ func (*MutableTree).recursiveRemove(tree, node, key) (newSelf, newKey, newValue, removed, err)
+//@   props C01 C02 C11
+//@   requires tree != nil && tree.ImmutableTree != nil && tree.ImmutableTree.ndb != nil && tree.logger != nil
+//@   requires node != nil && valid(node)
+//@   requires hgt(view(node)) <= 95 && siz(view(node)) <= 144115188075855872
+//@   ensures [nilonerr] err != nil ==> newSelf == nil && !removed
+//@   ensures [removed] err == nil ==> removed == d_removed(del(old(view(node)), ord(key)))
+//@   ensures [kept] err == nil && !removed ==> newSelf != nil && valid(newSelf) && view(newSelf) == d_tree(del(old(view(node)), ord(key))) && newKey == nil
+//@   ensures [gone] err == nil && removed ==> (newSelf == nil) == isTNil(d_tree(del(old(view(node)), ord(key))))
+//@   lemma [validres] err == nil && removed && newSelf != nil ==> valid(newSelf)
+//@   lemma [leftdeep] err == nil && removed && isInner(old(view(node))) && ord(key) < c_ord(i_key(old(view(node)))) && !isTNil(d_tree(del(i_left(old(view(node))), ord(key)))) ==> newSelf != nil && view(newSelf) == bal(mk(i_key(old(view(node))), d_tree(del(i_left(old(view(node))), ord(key))), i_right(old(view(node)))))
+//@   lemma [rightdeep] err == nil && removed && isInner(old(view(node))) && ord(key) >= c_ord(i_key(old(view(node)))) && !isTNil(d_tree(del(i_right(old(view(node))), ord(key)))) ==> newSelf != nil && view(newSelf) == bal(mk(ite(d_haskey(del(i_right(old(view(node))), ord(key))), d_key(del(i_right(old(view(node))), ord(key))), i_key(old(view(node)))), i_left(old(view(node))), d_tree(del(i_right(old(view(node))), ord(key)))))
+//@   ensures [tree] err == nil && removed && newSelf != nil ==> valid(newSelf) && view(newSelf) == d_tree(del(old(view(node)), ord(key)))
+//@   ensures [key] err == nil && removed ==> (newKey != nil) == d_haskey(del(old(view(node)), ord(key))) && (newKey != nil ==> cntOf(newKey) == d_key(del(old(view(node)), ord(key))))
+//@   ensures [value] err == nil && removed ==> cntOf(newValue) == d_val(del(old(view(node)), ord(key)))
+//@   ensures [bounds] err == nil && newSelf != nil ==> hgt(view(newSelf)) <= hgt(old(view(node))) && siz(view(newSelf)) <= siz(old(view(node)))
+//@   ensures [origin] err == nil && removed && newSelf != nil ==> newSelf >= old(na) || old(inptr[newSelf])
+//@   ensures [frame] nframe(old(heap(N)), heap(N), old(na))
+//@   modifies Node.leftNode[*], Node.rightNode[*], nodeDB.*[*], Statistics.*[*]
+//@   decreases hgt(view(node))
+
+// ---------------------------------------------------------------- node.go: lookups
+
+//@ func (*Node).get(node, t, key) (index, value, err)
+//@   props C01 C11
+//@   requires node != nil && t != nil && t.ndb != nil && valid(node)
+//@   requires siz(view(node)) <= 144115188075855872
+//@   ensures [rank] err == nil ==> index == rank(old(view(node)), ord(key)) && 0 <= index && index <= siz(old(view(node)))
+//@   ensures [present] err == nil ==> (value != nil) == has(old(view(node)), ord(key))
+//@   ensures [value] err == nil && value != nil ==> cntOf(value) == lookup(old(view(node)), ord(key))
+//@   ensures [frame] nframe(old(heap(N)), heap(N), old(na))
+//@   modifies nodeDB.*[*], Statistics.*[*]
+//@   decreases hgt(view(node))
+
+//@ func (*Node).getByIndex(node, t, index) (key, value, err)
+//@   props C01 C11
+//@   requires node != nil && t != nil && t.ndb != nil && valid(node)
+//@   requires siz(view(node)) <= 144115188075855872
+//@   ensures [inrange] err == nil ==> (value != nil) == isLeaf(nth(old(view(node)), index))
+//@   ensures [leaf] err == nil && value != nil ==> cntOf(key) == l_key(nth(old(view(node)), index)) && cntOf(value) == l_val(nth(old(view(node)), index))
+//@   ensures [outside] err == nil && value == nil ==> key == nil
+//@   ensures [frame] nframe(old(heap(N)), heap(N), old(na))
+//@   modifies nodeDB.*[*], Statistics.*[*]
 //@   decreases hgt(view(node))
